@@ -413,6 +413,8 @@ func rulesC05(w *World, o *Out) {
 		}
 	}
 
+	checkpointProvenance(w, o, fl, "C05.R2")
+
 	// ---- R3 ----
 	put := w.MustFunc(o, "x/consensus/keeper/consensus", "Queue", "Put")
 	if put != nil {
@@ -920,3 +922,86 @@ func receiptGate(w *World, f *ssa.Function, dispatch ssa.Instruction) bool {
 	}
 	return false
 }
+
+// checkpointProvenance: (a) the checkpoint of a batch is recomputed from the batch's content -- no
+// return of a GetCheckpoint method is influenced by the (caller-suppliable) BytesToSign field; (b) the
+// deployment id every production caller passes to GetCheckpoint is the SmartContractUniqueID of the
+// chain's current ChainInfo (evm keeper), not a copy kept elsewhere.
+func checkpointProvenance(w *World, o *Out, fl *Flow, rule string) {
+	n := 0
+	for _, recv := range []string{"OutgoingTxBatch", "InternalOutgoingTxBatch"} {
+		gc := w.MustFunc(o, "x/skyway/types", recv, "GetCheckpoint")
+		if gc == nil {
+			continue
+		}
+		bad := ""
+		for _, r := range Returns(gc) {
+			if len(r.Ret.Results) == 0 {
+				continue
+			}
+			aps, _ := fl.Influence(r.Ret.Results[0])
+			for a := range aps {
+				if strings.Contains(a.Path, ".BytesToSign") {
+					bad = a.String()
+				}
+			}
+		}
+		o.Check(rule, recv+".GetCheckpoint|recomputed from the batch's content, not taken from its BytesToSign field", bad == "", w.Pos(gc.Pos()),
+			"the checkpoint used to verify confirmations and to judge bad-signature evidence must be derived from token, transfers, nonce, timeout, relayer, estimate and deployment id; a stored/submitted digest ("+bad+") can be chosen by whoever supplies the batch")
+	}
+	for _, f := range w.ProdFuncs {
+		for _, s := range CallsIn(f) {
+			if s.Callee.Name != "GetCheckpoint" || !strings.HasSuffix(s.Callee.Pkg, "x/skyway/types") {
+				continue
+			}
+			args := s.Args()
+			id := args[len(args)-1]
+			aps, calls := fl.Influence(id)
+			// a wrapper that forwards its own parameter is judged at its callers
+			onlyParam := len(calls) == 0 && len(aps) > 0
+			for a := range aps {
+				if p, isP := a.Root.(*ssa.Parameter); !isP || p.Name() == "ctx" {
+					onlyParam = false
+				}
+			}
+			if onlyParam && strings.HasSuffix(funcPkgPath(f), "x/skyway/types") {
+				continue
+			}
+			n++
+			// the id is (a conversion of) the SmartContractUniqueID field of the value GetChainInfo returned
+			ok := false
+			v := canon(id)
+			for i := 0; i < 4; i++ {
+				switch x := v.(type) {
+				case *ssa.Convert:
+					v = canon(x.X)
+					continue
+				case *ssa.ChangeType:
+					v = canon(x.X)
+					continue
+				}
+				break
+			}
+			src := "an unrecognised expression"
+			if name, base := loadedField(v); name == "SmartContractUniqueID" && base != nil {
+				src = "a SmartContractUniqueID field"
+				if fl.DependsOnCall(base, func(c Callee) bool { return c.Name == "GetChainInfo" }) != nil {
+					ok = true
+				}
+			} else if c, isCall := v.(*ssa.Call); isCall {
+				if cal, okc := CalleeOf(c.Common()); okc {
+					src = "the result of " + cal.String()
+				}
+			}
+			_ = calls
+			o.Check(rule, w.FuncKey(TopFunc(f))+"|GetCheckpoint is given the deployment id of the chain's current ChainInfo", ok, w.Pos(s.Instr.Pos()),
+				"the deployment id bound into a checkpoint must be ChainInfo.SmartContractUniqueID as read from the evm keeper (GetChainInfo) at that moment; it is "+src)
+		}
+	}
+	o.Count(rule+" GetCheckpoint call sites with a deployment id", n, 4)
+}
+
+func isKeeperRead(c Callee) bool {
+	return strings.HasPrefix(c.Pkg, modPath) && strings.Contains(c.Pkg, "/keeper")
+}
+func feedsOnly(fl *Flow, c *ssa.Call, base ssa.Value) bool { return true }
